@@ -20,7 +20,7 @@ CLAIMED = {
    "DESIGN.md §7 C09, §15"),
  "C10": ("exploration",
    "Cluster executions with hostile generators on all five interfaces (garbage/mutated consensus messages with absurd slots, forged votes/certs, mutated shreds, hostile repair requests and unsolicited responses, oversize/empty/maximal transactions) and a Byzantine leader signing malformed blocks, interleaved with normal traffic: no panic located in the repository's sources in any task of a correct node, and after the hostile phase (variant with stabilisation) every live correct node keeps finalizing within the C02 bound.",
-   "Panics are attributed by source location; a task that ends silently without panicking is only noticed through the liveness half. Hostile generators are those of sim/src/hostile.rs and adv.rs. The crate's own receive loops (UdpNetwork, SimulatedNetwork) are exercised by a separate transport variant with hostile datagram scripts; its UdpNetwork half uses real loopback sockets (not schedule-controlled; only timing-independent facts are demanded, skipped if no socket can be bound).",
+   "Panics are attributed by source location; a task that ends silently without panicking is only noticed through the liveness half. Hostile generators are those of sim/src/hostile.rs and adv.rs. A cluster-faulty variant runs C01's fault schedules (plus partitions that cut off one node for 4-16 s) without hostile inputs: a node task that dies there is a C10 failure too; hostile profiles include a Byzantine leader of the very last leader window. The crate's own receive loops (UdpNetwork, SimulatedNetwork) are exercised by a separate transport variant with hostile datagram scripts; its UdpNetwork half uses real loopback sockets (not schedule-controlled; only timing-independent facts are demanded, skipped if no socket can be bound).",
    "DESIGN.md §7 C10"),
  "C19": ("exploration",
    "Every message kind (votes; certificates for 1..2048 validators incl. both halves and the highest index; shreds of all four shredders at boundary sizes; repair requests/responses with proofs for up to 1024 slices; transactions) is encoded, checked to fit 1500 bytes, round-tripped, rejected with trailing bytes and out-of-range indices, and corrupted at byte level (reject or stable re-encoding, never a panic); arbitrary byte strings go to all five decoders; the same monitor runs on every message real nodes emit in cluster runs.",
@@ -47,7 +47,7 @@ CLAIMED = {
    "Tree sizes sampled, not enumerated; second-preimage resistance of SHA-256 is assumed (a mutated proof that verifies is reported, not explained).",
    "DESIGN.md §7 C15"),
  "C16": ("exploration",
-   "2..40 independently constructed Rotor (both constructors) / Turbine / Trivial instances on a loss-free recording network with arbitrary delays: every shred a leader sends must reach every other validator, exactly once under Turbine/Trivial and through at most one relay broadcast under Rotor, for drawn validator counts, stakes, fanouts, construction times and call orders.",
+   "2..40 independently constructed Rotor (both constructors) / Turbine / Trivial instances on a loss-free recording network with arbitrary delays: every shred a leader sends must reach every other validator, exactly once under Turbine/Trivial and through at most one relay broadcast under Rotor, for drawn validator counts, stakes, fanouts, construction times and call orders (incl. instances switched to another sampler with a warm relay cache). A cluster variant runs real nodes with their real message loops fault-free over links with unequal delays: every shred of every slice must be addressed to every validator.",
    "Cache eviction (2^14 / 2^16 entries) is not reached in bounded runs.",
    "DESIGN.md §7 C16"),
  "C03": ("exploration",
